@@ -11,10 +11,16 @@ Definition prefix {A} (p l : list A) : Prop := exists q, p ++ q = l.
 (* the writes a timed trace issues, in issue order *)
 Definition twrites (tr : list (micro * clk)) : list Z := writes_of (map fst tr).
 
-(* no call in flight: the counter counts exactly the open transaction, and is within the
+(* no call in flight: every write of the open transaction has been counted (at least once:
+   a bulk insert that failed part-way counts all its rows), and the counter is within the
    threshold *)
 Definition quiet (s : cstate) : Prop :=
-  n_unc s = Z.of_nat (length (pending s)) /\ n_unc s <= THRESHOLD.
+  Z.of_nat (length (pending s)) <= n_unc s /\ n_unc s <= THRESHOLD.
+
+(* scripts the code had before its repairs (sensitivity examples only; not part of [expand]) *)
+Definition pre_4039c3d_delete (w : Z) : list micro := [Exec w].
+Definition pre_ec39c3d_insert_many_failed (ups done : list Z) : list micro :=
+  flat_map script_replace ups ++ [ExecMany done].
 
 Definition bucket_op (o : op) : Prop :=
   match o with CreateBucket _ | UpdateBucket _ | DeleteBucket _ _ => True | _ => False end.
@@ -31,9 +37,8 @@ Inductive qscript : list micro -> Prop :=
   | q_read : forall ms, qscript ms -> qscript (Read :: ms)
   | q_commit : forall ms, qscript ms -> qscript (Commit :: ms)
   | q_exec : forall w ms, qscript ms -> qscript (Exec w :: CondCommit 1 :: ms)
-  | q_many : forall ws ms, qscript ms ->
-      qscript (ExecMany ws :: CondCommit (Z.of_nat (length ws)) :: ms)
-  | q_many_nil : forall ms, qscript ms -> qscript (ExecMany [] :: ms)
+  | q_many : forall ws k ms, Z.of_nat (length ws) <= k -> qscript ms ->
+      qscript (ExecMany ws :: CondCommit k :: ms)
   | q_bucket1 : forall w ms, qscript ms -> qscript (Exec w :: Commit :: ms)
   | q_bucket2 : forall w1 w2 ms, qscript ms -> qscript (Exec w1 :: Exec w2 :: Commit :: ms).
 
@@ -224,7 +229,7 @@ Lemma quiet_after_commit : forall t s, quiet (do_commit t s).
 Proof. intros. unfold quiet, THRESHOLD. cbn. lia. Qed.
 
 Lemma quiet_block : forall lazy s ws k c,
-  quiet s -> k = Z.of_nat (length ws) ->
+  quiet s -> Z.of_nat (length ws) <= k ->
   quiet (cond_commit lazy k c (add_pending s ws)).
 Proof.
   intros lazy s ws k c [Hn Hle] Hk.
@@ -236,7 +241,7 @@ Qed.
 Lemma qscript_quiet : forall ms, qscript ms ->
   forall lazy tr s, map fst tr = ms -> quiet s -> quiet (run lazy s tr).
 Proof.
-  induction 1 as [|ms Hq IH|ms Hq IH|w ms Hq IH|ws ms Hq IH|ms Hq IH|w ms Hq IH|w1 w2 ms Hq IH];
+  induction 1 as [|ms Hq IH|ms Hq IH|w ms Hq IH|ws k ms Hk Hq IH|w ms Hq IH|w1 w2 ms Hq IH];
     intros lazy tr s Htr Hs.
   - destruct tr; [exact Hs|discriminate].
   - apply map_fst_cons in Htr. destruct Htr as (c & tr' & -> & Htr).
@@ -246,14 +251,11 @@ Proof.
   - apply map_fst_cons in Htr. destruct Htr as (c1 & tr1 & -> & Htr).
     apply map_fst_cons in Htr. destruct Htr as (c2 & tr2 & -> & Htr).
     rewrite !run_cons. apply IH; [assumption|].
-    unfold micro_step. cbn [fst snd]. apply quiet_block; [assumption|reflexivity].
+    unfold micro_step. cbn [fst snd]. apply quiet_block; [assumption|cbn; lia].
   - apply map_fst_cons in Htr. destruct Htr as (c1 & tr1 & -> & Htr).
     apply map_fst_cons in Htr. destruct Htr as (c2 & tr2 & -> & Htr).
     rewrite !run_cons. apply IH; [assumption|].
-    unfold micro_step. cbn [fst snd]. apply quiet_block; [assumption|reflexivity].
-  - apply map_fst_cons in Htr. destruct Htr as (c & tr' & -> & Htr).
-    rewrite run_cons. apply IH; [assumption|].
-    destruct Hs as [Hn Hle]. unfold micro_step, quiet. cbn. rewrite app_nil_r. auto.
+    unfold micro_step. cbn [fst snd]. apply quiet_block; assumption.
   - apply map_fst_cons in Htr. destruct Htr as (c1 & tr1 & -> & Htr).
     apply map_fst_cons in Htr. destruct Htr as (c2 & tr2 & -> & Htr).
     rewrite !run_cons. apply IH; [assumption|].
@@ -276,49 +278,48 @@ Proof.
   cbn [flat_map script_replace app]. apply q_exec. exact IH.
 Qed.
 
-Lemma qscript_expand : forall o, counted o -> qscript (expand o).
+Lemma qscript_expand : forall o, qscript (expand o).
 Proof.
-  intros o Hc.
   destruct o; cbn [expand script_replace script_get_metadata app];
     repeat (first [apply q_nil | apply q_read | apply q_commit | apply q_exec
                   | apply q_bucket1 | apply q_bucket2]).
-  - apply qscript_upserts. apply q_many. apply q_nil.
+  - apply qscript_upserts. apply q_many; [lia|apply q_nil].
   - destruct limit0; repeat constructor.
-  - destruct done; [|contradiction]. apply qscript_upserts. apply q_many_nil. apply q_nil.
+  - apply qscript_upserts. apply q_many; [lia|apply q_nil].
 Qed.
 
-Lemma qscript_expand_all : forall h, Forall counted h -> qscript (expand_all h).
+Lemma qscript_expand_all : forall h, qscript (expand_all h).
 Proof.
-  induction 1 as [|o h Ho Hh IH]; [apply q_nil|].
-  unfold expand_all. cbn [flat_map]. apply qscript_app; [apply qscript_expand; exact Ho|exact IH].
+  induction h as [|o h IH]; [apply q_nil|].
+  unfold expand_all. cbn [flat_map]. apply qscript_app; [apply qscript_expand|exact IH].
 Qed.
 
 Lemma quiet_init : forall c0 t0, quiet (init c0 t0).
 Proof. intros. unfold quiet, THRESHOLD. cbn. lia. Qed.
 
 Lemma bounded_loss_quiescent : forall lazy c0 t0 h tr,
-  Forall counted h -> map fst tr = expand_all h ->
+  map fst tr = expand_all h ->
   let s := run lazy (init c0 t0) tr in
-  n_unc s = Z.of_nat (length (pending s)) /\ (length (pending s) <= 50)%nat /\
+  Z.of_nat (length (pending s)) <= n_unc s /\ n_unc s <= 50 /\ (length (pending s) <= 50)%nat /\
   recover s ++ pending s = c0 ++ writes_of (expand_all h).
 Proof.
-  intros lazy c0 t0 h tr Hcnt Htr s.
+  intros lazy c0 t0 h tr Htr s.
   assert (Hq : quiet s).
   { apply qscript_quiet with (ms := expand_all h); auto using qscript_expand_all, quiet_init. }
-  destruct Hq as [Hn Hle]. unfold THRESHOLD in Hle. repeat split; [exact Hn|lia|].
+  destruct Hq as [Hn Hle]. unfold THRESHOLD in Hle. repeat split; [exact Hn|exact Hle|lia|].
   unfold recover, s. rewrite run_all. cbn. unfold twrites. rewrite Htr. reflexivity.
 Qed.
 
 (* a crash at any micro-step of the call in flight: at most 50 of the writes of the
    completed calls are missing, so at most 50 + (writes of the call in flight) in all *)
 Lemma bounded_loss_any_cut : forall lazy c0 t0 h o tr tro k,
-  Forall counted h -> map fst tr = expand_all h -> map fst tro = expand o ->
+  map fst tr = expand_all h -> map fst tro = expand o ->
   let s := run lazy (init c0 t0) (tr ++ firstn k tro) in
   (length c0 + length (writes_of (expand_all h)) <= length (recover s) + 50)%nat /\
   (length (pending s) <= 50 + length (writes_of (expand o)))%nat.
 Proof.
-  intros lazy c0 t0 h o tr tro k Hcnt Htr Htro s.
-  pose proof (bounded_loss_quiescent lazy c0 t0 h tr Hcnt Htr) as (Hn & Hle & Hall).
+  intros lazy c0 t0 h o tr tro k Htr Htro s.
+  pose proof (bounded_loss_quiescent lazy c0 t0 h tr Htr) as (Hn & _ & Hle & Hall).
   cbv zeta in Hn, Hle, Hall.
   set (s1 := run lazy (init c0 t0) tr) in *.
   assert (Hs : s = run lazy s1 (firstn k tro)) by (unfold s, s1; apply run_app).
@@ -336,18 +337,23 @@ Proof.
   unfold recover in H1. lia.
 Qed.
 
-(* without the hypothesis the bound fails: two bulk inserts of 31 rows that each raise on
-   their 32nd row leave 62 writes pending and the counter at 0 *)
-Lemma bounded_loss_refuted :
-  exists h tr, map fst tr = expand_all h /\
-    let s := run true (init [] 0) tr in
-    (length (pending s) > 50)%nat /\ n_unc s = 0 /\ recover s = [].
-Proof.
-  exists [InsertManyFailed [] (map Z.of_nat (seq 0 31)); InsertManyFailed [] (map Z.of_nat (seq 100 31))].
-  eexists (map (fun m => (m, mkClk 0 0 0)) _). split.
-  - rewrite map_map. cbn [fst]. apply map_id.
-  - vm_compute. repeat split. lia.
-Qed.
+(* sensitivity: the scripts the code had before two of its repairs break the invariant *)
+Definition timed0 (ms : list micro) : list (micro * clk) := map (fun m => (m, mkClk 0 0 0)) ms.
+
+Lemma pre_fix_delete_breaks_bound :
+  let s := run true (init [] 0) (timed0 (flat_map pre_4039c3d_delete (map Z.of_nat (seq 0 100)))) in
+  (length (pending s), n_unc s, length (recover s)) = (100%nat, 0, 0%nat).
+Proof. vm_compute. reflexivity. Qed.
+
+(* two bulk inserts of 31 rows that each raise on their 32nd row, with the script of
+   insert_many before ec39c3d (no conditional_commit on the failing path): 62 writes
+   pending, counter 0, nothing committed *)
+Lemma pre_fix_failed_bulk_breaks_bound :
+  let tr := timed0 (pre_ec39c3d_insert_many_failed [] (map Z.of_nat (seq 0 31)) ++
+                    pre_ec39c3d_insert_many_failed [] (map Z.of_nat (seq 100 31))) in
+  let s := run true (init [] 0) tr in
+  (length (pending s) > 50)%nat /\ n_unc s = 0 /\ recover s = [].
+Proof. vm_compute. repeat split. lia. Qed.
 
 (* ---- bucket operations are durable when they return ---- *)
 
